@@ -193,12 +193,29 @@ def _worker(args):
     mod = importlib.import_module(modname)
     rec = Rec(cfg)
     out = {"name": cfg.get("name"), "violations": [], "nonrepro": [], "validated": 0, "validation_failures": []}
+    encoding_lost = None
     try:
         mod.run_config(cfg, rec)
     except core.PathCap as ex:
         rec.inconclusive.append(f"{cfg.get('name')}: path cap: {ex}")
     except BaseException as ex:  # noqa: BLE001
-        rec.errors.append(f"{cfg.get('name')}: {type(ex).__name__}: {ex}\n{traceback.format_exc(limit=8)}")
+        encoding_lost = f"{cfg.get('name')}: {type(ex).__name__}: {ex}\n{traceback.format_exc(limit=8)}"
+    core.Ctx.cur = None
+    # Float self-check of the configuration with the harness's own replay oracle (the untouched float code at generic
+    # points).  It is what confirms solver counterexamples; run unconditionally it also catches changes that only
+    # exist in floating point / dtype handling, and tells a real defect from a lost encoding.
+    if getattr(mod, "FLOAT_SELFCHECK", False) or encoding_lost:
+        try:
+            violated, detail = mod.replay({"cfg": cfg, "env": {}})
+        except Exception as ex:  # noqa: BLE001
+            violated, detail = None, f"{type(ex).__name__}: {ex}"
+        if violated:
+            rec.candidates.append((rec.fp_override or ("float-oracle:" + str(cfg.get("kind", "config"))),
+                                   "float self-check of the configuration", {"env": {}}))
+        elif encoding_lost:
+            rec.errors.append(encoding_lost)
+    elif encoding_lost:
+        rec.errors.append(encoding_lost)
     # ---- everything below runs on the untouched float code (patches restored by run_config)
     core.Ctx.cur = None
     for label, env, expected in rec.validations:
